@@ -262,7 +262,9 @@ impl<'ast> Visit<'ast> for V {
     fn visit_expr_call(&mut self, c: &'ast syn::ExprCall) {
         syn::visit::visit_expr_call(self, c);
         let f = squash(&toks(&*c.func));
-        if f.ends_with("::try_from_usize") && c.args.len() == 1 {
+        if f.ends_with("::try_from_usize") && !crate::is_own_key_check(&f) {
+            self.other(&format!("key check on another type: {f}"));
+        } else if f.ends_with("::try_from_usize") && c.args.len() == 1 {
             let a = self.karg(&c.args[0]);
             self.out.push(format!("(.keyCheck {a})"));
         } else if f.ends_with("::with_capacity") || f.ends_with("::with_capacity_and_hasher") {
